@@ -64,7 +64,7 @@ fn main() {
     if cmd == "c04-one" || cmd == "c03-one" {
         std::process::exit(if cmd == "c04-one" { tmon::c04::one(&args[2]) } else { 2 });
     }
-    let prop: &'static str = match cmd.trim_end_matches("-child") {
+    let prop: &'static str = match cmd.split('-').next().unwrap_or("") {
         "c01" => "C01",
         "c02" => "C02",
         "c03" => "C03",
@@ -108,8 +108,12 @@ fn main() {
         "c09" => tmon::c09::run(&ctx),
         "c10" => tmon::c10::run(&ctx),
         "c11" => tmon::c11::run(&ctx),
+        "c12" => tmon::c12::run(&ctx),
+        "c12-digest" => tmon::c12::digest(&ctx),
         "c13" => tmon::c13::run(&ctx),
         "c14" => tmon::c14::run(&ctx),
+        "c15" => tmon::c15::run(&ctx),
+        "c15-emit" => tmon::c15::emit(&ctx),
         "c16" => tmon::c16::run(&ctx),
         "c17" => tmon::c17::run(&ctx),
         _ => {
